@@ -30,6 +30,59 @@ def ms(s, e):
 MEAS_EQ = 'self.data == m.data && ec.prev_time == m.prev && ec.last_delta == m.ld && ec.last_delta2 == m.ld2'
 
 
+TT_SPEC = '''
+// ---- C13: test_timer over the log of the probes it performed ----
+pub struct Probe { pub t: u64, pub t2: u64 }
+pub open spec fn pdelta(p: Probe) -> i32 { delta_of(p.t2, p.t) }
+// running statistics over the probes that are counted (the first 100 only warm the caches)
+pub struct Tt { pub ld: i32, pub ld2: i32, pub old_delta: i32, pub delta_sum: nat, pub backwards: nat, pub cmod: nat, pub cstuck: nat }
+pub open spec fn tt_step(s: Tt, p: Probe) -> Tt {
+    let d = pdelta(p);
+    let (st, ld, ld2) = stuck_of(s.ld, s.ld2, d);
+    Tt { ld: ld, ld2: ld2, old_delta: d,
+         delta_sum: s.delta_sum + abs_int(d as int - s.old_delta as int),
+         backwards: s.backwards + (if p.t2 <= p.t { 1nat } else { 0nat }),
+         cmod: s.cmod + (if d as int % 100 == 0 { 1nat } else { 0nat }),
+         cstuck: s.cstuck + (if st { 1nat } else { 0nat }) }
+}
+pub open spec fn tt_stats(log: Seq<Probe>, k: nat) -> Tt decreases k {
+    if k == 0 { Tt { ld: 0, ld2: 0, old_delta: 0, delta_sum: 0, backwards: 0, cmod: 0, cstuck: 0 } }
+    else { let s = tt_stats(log, (k - 1) as nat); if k - 1 < 100 { s } else { tt_step(s, log[k - 1]) } }
+}
+pub proof fn lemma_tt_prefix(a: Seq<Probe>, b: Seq<Probe>, k: nat)
+    requires k <= a.len() <= b.len(), forall |j: int| 0 <= j < a.len() ==> a[j] == b[j]
+    ensures tt_stats(a, k) == tt_stats(b, k)
+    decreases k
+{ if k > 0 { lemma_tt_prefix(a, b, (k - 1) as nat); } }
+pub open spec fn probe_ok(p: Probe) -> bool { p.t != 0 && p.t2 != 0 && pdelta(p) != 0 }
+pub open spec fn zero_reading(log: Seq<Probe>) -> bool { exists |k: int| 0 <= k < log.len() && ((#[trigger] log[k]).t == 0 || log[k].t2 == 0) }
+pub open spec fn zero_delta(log: Seq<Probe>) -> bool { exists |k: int| 0 <= k < log.len() && pdelta(#[trigger] log[k]) == 0 }
+pub open spec fn mean_var(log: Seq<Probe>) -> nat { tt_stats(log, log.len()).delta_sum / 300 }
+pub open spec fn cond_holds(e: TimerError, log: Seq<Probe>) -> bool {
+    let s = tt_stats(log, log.len());
+    match e {
+        TimerError::NoTimer => zero_reading(log),
+        TimerError::CoarseTimer => zero_delta(log) || (log.len() == 400 && s.cmod > 270),
+        TimerError::NotMonotonic => log.len() == 400 && s.backwards > 3,
+        // mean absolute change of the deltas so small that log2(mean)/2 credits zero bits per round (mean <= 1)
+        TimerError::TinyVariations => log.len() == 400 && mean_var(log) < 2,
+        TimerError::TooManyStuck => log.len() == 400 && s.cstuck > 270,
+        TimerError::__Nonexhaustive => false,
+    }
+}
+pub open spec fn any_failure(log: Seq<Probe>) -> bool {
+    let s = tt_stats(log, log.len());
+    zero_reading(log) || zero_delta(log) || s.backwards > 3 || mean_var(log) < 2 || s.cmod > 270 || s.cstuck > 270
+}
+pub open spec fn tt_post(log: Seq<Probe>, r: Result<u8, TimerError>) -> bool {
+    log.len() <= 400 && match r {
+        Ok(x) => log.len() == 400 && !any_failure(log) && 1 <= x <= 128 && mean_var(log) <= u64::MAX && x as nat * bitlen(mean_var(log) as u64) >= 128,
+        Err(e) => cond_holds(e, log),
+    }
+}
+'''
+
+
 def build(features=()):
     u = Unit('jitter')
     cr = u.crate('rand_jitter', features=features)
@@ -39,7 +92,9 @@ def build(features=()):
     u.raw(open(os.path.join(HERE, 'spec.rs')).read())
     u.raw(open(os.path.join(HERE, 'lemmas.rs')).read() if os.path.exists(os.path.join(HERE, 'lemmas.rs')) else '')
     u.raw('pub mod jitter {\n' + PRE)
-    u.raw('pub mod error { pub enum TimerError { NoTimer, CoarseTimer, NotMonotonic, TinyVariations, TooManyStuck } }\npub use self::error::TimerError;')
+    u.raw('// the error enum (discriminant values are irrelevant to every claimed property)\n'
+          'pub mod error { pub enum TimerError { NoTimer, CoarseTimer, NotMonotonic, TinyVariations, TooManyStuck, __Nonexhaustive } }\npub use self::error::TimerError;')
+    u.raw(TT_SPEC)
     for c in ('MEMORY_BLOCKS', 'MEMORY_BLOCKSIZE', 'MEMORY_SIZE'):
         u.item(cr, c)
     u.struct(cr, 'JitterRng')
@@ -73,6 +128,11 @@ impl<F> RelView for JitterRng<F> where F: Fn() -> u64 + Send + Sync {
         if pre.half { post.data == pre.data && !post.half && r == (pre.data >> 32u64) as u32 }
         else { post.half && r == post.data as u32 && collected(pre, post.data) })
     }
+}
+// the first min(n, 8) bytes handed out are the little-endian bytes of a freshly collected 64-bit value
+pub open spec fn fresh_first_word(pre: Jv, bytes: Seq<u8>) -> bool {
+    let m = if bytes.len() < 8 { bytes.len() as int } else { 8 };
+    exists |w: u64| #[trigger] collected(pre, w) && bytes.subrange(0, m) == le64(w).subrange(0, m)
 }
 impl<F> FillRelView for JitterRng<F> where F: Fn() -> u64 + Send + Sync {
     open spec fn rfill(pre: Jv, bytes: Seq<u8>, post: Jv) -> bool { fill_rel::<Self>(pre, bytes, post) }
@@ -169,8 +229,48 @@ impl<F> FillRelView for JitterRng<F> where F: Fn() -> u64 + Send + Sync {
                                after(lit('self.stir_pool();'), 'proof { assert(collect_ok(old(self).data, old(self).rounds as nat, t0, ts + us, self.data)) by {\n'
                                      '  assert(ts.len() == 1); assert((ts + us).take(1) =~= ts); assert((ts + us).skip(1) =~= us); if us.len() > 0 { assert((ts + us).last() == us.last()); } } }'),
                            ])
+    cs['timer_stats'] = Fn(None, ret='r', builtin_props='C14 C18',
+                           requires=[C('jitter.timer_stats.pre', '', WF)],
+                           ensures=[C('jitter.timer_stats.spec', 'C12', 'exists |t: u64, t2: u64| final(self).data == #[trigger] lfsr64(old(self).data, t) && r == #[trigger] t2.wrapping_sub(t) as i64'),
+                                    C('jitter.timer_stats.frame', 'C12', FRAME)],
+                           inserts=[tail('proof { let _ = lfsr64(old(self).data, time); let _ = time2.wrapping_sub(time); }')])
+    stats_inv = ('({ let s = tt_stats(log, i_ as nat); ec.last_delta == s.ld && ec.last_delta2 == s.ld2 && old_delta == s.old_delta && delta_sum == s.delta_sum '
+                 '&& time_backwards == s.backwards && count_mod == s.cmod && count_stuck == s.cstuck })')
+    cs['test_timer'] = Fn(None, ret='r', builtin_props='C14 C18',
+                          requires=[C('jitter.test_timer.pre', '', WF)],
+                          ensures=[C('jitter.test_timer.post', 'C13', 'exists |log: Seq<Probe>| #[trigger] tt_post(log, r)'),
+                                   C('jitter.test_timer.frame', 'C12', FRAME)],
+                          loops={0: Loop(invariants=[
+                              C('jitter.test_timer.inv.keep', 'C13 C14', 'self.timer.requires(()) && self.rounds == old(self).rounds && self.timer == old(self).timer && self.data_half_used == old(self).data_half_used '
+                                '&& CLEARCACHE == 100 && TESTLOOPCOUNT == 300'),
+                              C('jitter.test_timer.inv.log', 'C13', 'i_ <= 400 && log.len() == i_ && forall |k: int| 0 <= k < log.len() ==> probe_ok(#[trigger] log[k])'),
+                              C('jitter.test_timer.inv.stats', 'C13', stats_inv),
+                              C('jitter.test_timer.inv.bounds', 'C13 C14', 'delta_sum <= (if i_ <= 100 { 0 } else { (i_ - 100) * 0x1_0000_0000 }) && count_stuck <= i_ && count_mod <= i_ && 0 <= time_backwards <= i_'),
+                          ], decreases='400 - i_')},
+                          inserts=[
+                              after(r'let mut ec\s*=\s*EcState\s*\{[^}]*\};', 'let ghost mut log: Seq<Probe> = Seq::empty();'),
+                              before(lit('if time == 0 || time2 == 0 { return Err(TimerError::NoTimer); }'),
+                                     'let ghost log0 = log; proof { log = log.push(Probe { t: time, t2: time2 }); assert(log.drop_last() =~= log0); '
+                                     'if time == 0 || time2 == 0 { assert(log[log.len() - 1].t == 0 || log[log.len() - 1].t2 == 0); assert(@0@); } }', clauses=[C('jitter.test_timer.err_no_timer', 'C13', 'tt_post(log, Err(TimerError::NoTimer))')]),
+                              before(lit('if delta == 0 { return Err(TimerError::CoarseTimer); }'),
+                                     'proof { if delta == 0 { assert(pdelta(log[log.len() - 1]) == 0); assert(@0@); } }', clauses=[C('jitter.test_timer.err_zero_delta', 'C13', 'tt_post(log, Err(TimerError::CoarseTimer))')]),
+                              before(lit('if i < CLEARCACHE { continue; }'),
+                                     'proof { assert(probe_ok(log[log.len() - 1])); lemma_tt_prefix(log0, log, i as nat); reveal_with_fuel(tt_stats, 2); assert(log[i as int] == Probe { t: time, t2: time2 });\n'
+                                     '  assert(tt_stats(log, (i + 1) as nat) == (if i < 100 { tt_stats(log, i as nat) } else { tt_step(tt_stats(log, i as nat), log[i as int]) })); }'),
+                              before(lit('black_box(ec.mem[0]);'), 'proof { assert(log.len() == 400); }\nlet ghost st = tt_stats(log, 400);'),
+                              before(lit('return Err(TimerError::NotMonotonic);'), 'proof { assert(@0@); }', clauses=[C('jitter.test_timer.err_not_monotonic', 'C13', 'tt_post(log, Err(TimerError::NotMonotonic))')]),
+                              before(lit('return Err(TimerError::TinyVariations);'), 'proof { assert(@0@); }', clauses=[C('jitter.test_timer.err_tiny_variations', 'C13', 'tt_post(log, Err(TimerError::TinyVariations))')]),
+                              before(lit('return Err(TimerError::CoarseTimer);'), 'proof { assert(@0@); }', occ=2, clauses=[C('jitter.test_timer.err_coarse_mod', 'C13', 'tt_post(log, Err(TimerError::CoarseTimer))')]),
+                              before(lit('return Err(TimerError::TooManyStuck);'), 'proof { assert(@0@); }', clauses=[C('jitter.test_timer.err_too_many_stuck', 'C13', 'tt_post(log, Err(TimerError::TooManyStuck))')]),
+                              after(lit('let delta_average = delta_sum / TESTLOOPCOUNT;'),
+                                    'proof { assert(!zero_reading(log)); assert(!zero_delta(log)); assert(delta_average == mean_var(log)); lemma_bitlen_bounds(delta_average); }'),
+                              after(lit('let log2 = 64 - delta_average.leading_zeros_v();'),
+                                    'proof { let q = (128 + log2 as int - 1) / (log2 as int); assert(q * log2 >= 128 && q <= 26 && q >= 2) by (nonlinear_arith) requires 5 <= log2 <= 64, q == (128 + log2 as int - 1) / (log2 as int); '
+                                    'assert(@0@); }', clauses=[C('jitter.test_timer.ok_log2', 'C13', 'tt_post(log, Ok(q as u8))')]),
+                              after(r'let log2_lookup\s*=\s*\[[^\]]*\];', 'proof { reveal_with_fuel(bitlen, 6); assert(@0@); }', clauses=[C('jitter.test_timer.ok_table', 'C13', 'tt_post(log, Ok(log2_lookup[delta_average as int]))')]),
+                          ])
     u.impl(cr, ip, header='impl<F> JitterRng<F> where F: Fn() -> u64 + Send + Sync',
-           fns=['new_with_timer', 'set_rounds', 'random_loop_cnt', 'lfsr_time', 'memaccess', 'measure_jitter', 'stir_pool', 'gen_entropy'], contracts=cs)
+           fns=['new_with_timer', 'set_rounds', 'random_loop_cnt', 'lfsr_time', 'memaccess', 'measure_jitter', 'stir_pool', 'gen_entropy', 'test_timer', 'timer_stats'], contracts=cs)
 
     # ---- RngCore ---------------------------------------------------------------------------------------
     rp = 'RngCore@JitterRng'
@@ -185,6 +285,21 @@ impl<F> FillRelView for JitterRng<F> where F: Fn() -> u64 + Send + Sync {
             C('jitter.next_u32.low_half_fresh', 'C05 C12 C16', '!old(self).data_half_used ==> final(self).data_half_used && r == final(self).data as u32 && collected(old(self).v(), final(self).data)'),
             C('jitter.next_u32.frame', 'C12', 'final(self).rounds == old(self).rounds && final(self).timer == old(self).timer')])})
     u.impl(cr, rp, header='impl<F> Fill for JitterRng<F>' + W, fns=['fill_bytes'], contracts={
-        'fill_bytes': Fn(None, builtin_props='C14', trait_props='C05 C16')})
+        'fill_bytes': Fn(None, builtin_props='C14', trait_props='C05 C16', ensures=[
+            # C16, stated literally: with a half pending, fill_bytes starts a fresh collection (its first word is a collected value)
+            C('jitter.fill_bytes.discards_pending_half.len_ge_5', 'C16',
+              'old(self).data_half_used && old(dest)@.len() >= 5 ==> fresh_first_word(old(self).v(), final(dest)@)'),
+            C('jitter.fill_bytes.discards_pending_half.len_1_to_4', 'C16',
+              'old(self).data_half_used && 1 <= old(dest)@.len() <= 4 ==> fresh_first_word(old(self).v(), final(dest)@)')],
+            inserts=[Insert('end', None, 'proof { let pre = old(self).v(); let bytes = dest@; let n = bytes.len();\n'
+                            '  if n >= 5 { assert(fill_rel::<Self>(pre, bytes, self.v()));\n'
+                            '    let (ws, vs) = choose |ws: Seq<u64>, vs: Seq<Jv>| #[trigger] chain::<Self>(ws, vs) && vs[0] == pre && ws.len() == bytes.len() / 8\n'
+                            '        && (forall |i: int| 0 <= i < ws.len() ==> bytes.subrange(8 * i, 8 * i + 8) == le64(#[trigger] ws[i]))\n'
+                            '        && tail_rel::<Self>(vs.last(), bytes.subrange(8 * ws.len() as int, bytes.len() as int), self.v());\n'
+                            '    if n >= 8 { let w = ws[0]; assert(Self::r64(vs[0], w, vs[1])); assert(bytes.subrange(0, 8) == le64(w)); assert(collected(pre, w)); assert(le64(w).subrange(0, 8) =~= le64(w));\n'
+                            '                assert(fresh_first_word(pre, bytes)); }\n'
+                            '    else { assert(ws.len() == 0); assert(vs.last() == vs[0]); let tb = bytes.subrange(0, n as int); assert(tb =~= bytes);\n'
+                            '           let w = choose |w: u64| #[trigger] Self::r64(pre, w, self.v()) && tb == le64(w).subrange(0, tb.len() as int); assert(collected(pre, w)); lemma_le64_roundtrip(w);\n'
+                            '           assert(fresh_first_word(pre, bytes)); } } }')])})
     u.raw('}')
     return u
